@@ -173,6 +173,21 @@ func c14(c *Ctx) {
 		}
 		c.ExpectAll("posmap/updated-from-result", ups, pat("phi(litefs.(*Store).restoreDBFromBackup(@@)#0|litefs.(*Store).streamBackupDB(@@)#0)"), 1, "a position-map entry is replaced only by the position the sync (or restore) returned", "a remembered position the service does not hold makes the next round skip or fork")
 	}
+	{
+		pm := "litefs.(*FileBackupClient).PosMap"
+		upd := func(in ssa.Instruction) bool { _, ok := in.(*ssa.MapUpdate); return ok }
+		c.Guarded("posmap/file/no-transaction-file-no-entry", pm, upd, gs(GP("ltx.(Pos).IsZero(litefs.(*FileBackupClient).pos(@@)#0)", false)), 1,
+			"the file client lists a database only when its directory holds a transaction file (a non-zero position)",
+			"F50: a directory left by a failed first upload (temporary file only) was reported at position zero; a primary without that database then tried to restore it and every sync failed")
+		c.ExpectAll("posmap/file/entry-is-computed-position", func() []string {
+			var out []string
+			for _, in := range Instrs(c.F(pm), upd) {
+				mu := in.(*ssa.MapUpdate)
+				out = append(out, p.Render(mu.Value))
+			}
+			return out
+		}(), pat("litefs.(*FileBackupClient).pos(@@)#0"), 1, "the entry stored is the position computed from the directory", "")
+	}
 	c.Guarded("posmap/zero-deletes", st, p.PlainCalls("builtin.delete"), gs(GP("ltx.(Pos).IsZero(@@)", true)), 1, "an entry is deleted only for a zero position", "")
 	c.Guarded("posmap/nonzero-updates", st, func(in ssa.Instruction) bool {
 		mu, ok := in.(*ssa.MapUpdate)
